@@ -72,6 +72,10 @@ impl Rng {
         &xs[self.usize(xs.len())]
     }
 
+    pub fn pick_str(&mut self, xs: &[&'static str]) -> &'static str {
+        xs[self.usize(xs.len())]
+    }
+
     pub fn shuffle<T>(&mut self, xs: &mut [T]) {
         for i in (1..xs.len()).rev() {
             let j = self.usize(i + 1);
